@@ -55,7 +55,12 @@ RULE = ("(a) generate_motifs(3) and generate_motifs(4) compared IN FULL with the
         "fractions and against the model (Model/C11Stats.lean, math.sqrt handed over), plus 2 / 16 seeded calls of "
         "compute_motifs / compute_directed_motifs with runs_config_model=2 whose 'norm_delta' is recomputed from "
         "their own 'observed' and 'config_model'; in (c) the model's classified node sets (dCounted) and the sum of "
-        "the census counts against the implementation's final visited dict. "
+        "the census counts against the implementation's final visited dict; in (b), wherever the three passes are "
+        "called directly, the model's enumeration countedPats (node sets per pass with the pattern handed to the "
+        "class table; Model/C11Enum.lean) against the passes' visited dicts and the node sets the ESU pass looks up "
+        "in `visited` and does not find, against the property's words (every connected n-subset classified exactly "
+        "once over the three passes; pattern = induced sub-hypergraph with nodes replaced by ranks) and against the "
+        "model run with reversed incidence lists, adjacency lists and key order (countedWith). "
         "A case is distinct by (kind, order, canonical hyperedge list); non-trivial when at least 3 classes have a "
         "non-zero count")
 ASSUMPTIONS = ["integer node labels (Python ints of any magnitude; numpy integer scalars are read as the integers they "
@@ -71,11 +76,14 @@ ASSUMPTIONS = ["integer node labels (Python ints of any magnitude; numpy integer
                "censuses between two steps; the twin without any of this is stream (d): new Python processes that "
                "only import, build and call compute_motifs / compute_directed_motifs (a per-call alarm and the "
                "result file are the only additions), judged from outside",
+               "the direct call of _motifs_standard (never compute_motifs itself) receives its `visited` argument as a "
+               "dict subclass that records the keys tested with `in` and not found; it is a dict in every other respect",
                "a finding's replay re-runs the steps listed in its `history` (by default the earlier steps of its "
                "session; the harness tries shorter / longer prefixes in a fresh process and keeps the first that "
                "reproduces the finding)"]
 TRUSTED = ["Python set/dict iteration order does not influence the counted node subsets (the model pops the head of a "
-           "list where graph_extend pops an arbitrary set element; only counts are compared)"]
+           "list where graph_extend pops an arbitrary set element; only counts and sorted node sets are compared; for the orders of "
+           "the incidence / adjacency lists and of graph.keys() this is the theorem C11_counted_incidence_order)"]
 BUDGET_S = {"quick": 50, "thorough": 800}
 
 LOG = []            # every step made in this process, in order
@@ -759,9 +767,44 @@ def fresh_targets(case, r, k):
     return r.sample(pool, k)
 
 
+class RecDict(dict):
+    """the `visited` dict handed to `_motifs_standard`: a plain dict that also records every node set looked up with
+    `in` and not found - these are the node sets the ESU pass goes on to classify (one look-up per `count_motif` call)"""
+
+    def __init__(self, *a):
+        super().__init__(*a)
+        self.missed = []
+
+    def __contains__(self, k):
+        r = dict.__contains__(self, k)
+        if not r:
+            self.missed.append(k)
+        return r
+
+
+def connected_subsets(E, n):
+    """the property's words: the n-subsets of the node set that the hyperedges of size >= 2 inside them connect"""
+    nodes = sorted({x for e in E for x in e})
+    Es = [tuple(sorted(e)) for e in E if 2 <= len(e) <= n]
+    out = []
+    for T in itertools.combinations(nodes, n):
+        Ts = set(T)
+        inner = [e for e in Es if set(e) <= Ts]
+        if inner and connected_sets(T, inner):
+            out.append(tuple(T))
+    return out
+
+
+def induced_mask(E, n, S):
+    """the induced sub-hypergraph of the sorted node tuple S with nodes replaced by ranks 1..n, as a mask"""
+    rk = {x: i + 1 for i, x in enumerate(S)}
+    return mask_of(n, {tuple(sorted(rk[x] for x in e)) for e in E if 2 <= len(e) and all(x in rk for x in e)})
+
+
 def impl_passes(Eup, n):
     """the three passes called directly, in the order and with the visited hand-over of compute_motifs
-    -> ('ok', (full, not_full, standard, visited after full, visited after not_full)) or ('exc', why)"""
+    -> ('ok', (full, not_full, standard, visited after full, visited after not_full, node sets the ESU pass looked up
+    in `visited` and did not find)) or ('exc', why)"""
     from hypergraphx.motifs import utils
     pf = guarded(utils._motifs_ho_full, list(Eup), n)
     if pf[0] != "ok":
@@ -778,13 +821,15 @@ def impl_passes(Eup, n):
         else:
             nf = [(k, 0) for k, _ in full]
         v2 = node_sets(vis)
-        ps = guarded(utils._motifs_standard, list(Eup), n, dict(vis))
+        rec = RecDict(vis)
+        ps = guarded(utils._motifs_standard, list(Eup), n, rec)
         if ps[0] != "ok":
             return "exc", "_motifs_standard: " + ps[1]
+        v3 = node_sets(rec.missed)
         tallies = []
         for impl in (full, nf, ps[1]):
             tallies.append({mask_of(n, k): int(c) for k, c in impl})
-        return "ok", (tallies[0], tallies[1], tallies[2], v1, v2)
+        return "ok", (tallies[0], tallies[1], tallies[2], v1, v2, v3)
     except Exception as e:  # noqa: BLE001
         return "exc", f"unreadable result of a pass: {e!r}"
 
@@ -877,7 +922,7 @@ def check_hg(ctx, drv, sess, case):
     enc = hgxv.enc_lists([[rank[x] for x in e] for e in E])
     lines = [f"census {n} {enc}"]
     if ip is not None:
-        lines += [f"passes {n} {enc}", f"visited {n} {enc}"]
+        lines += [f"passes {n} {enc}", f"visited {n} {enc}", f"ucounted {n} {enc}"]
     ans = ask(drv, lines)
     mod = tally_to_dict(ans[0])
     if mod != obs:
@@ -888,7 +933,7 @@ def check_hg(ctx, drv, sess, case):
     if ip[0] != "ok":
         ctx.disagree(case, "a pass called directly failed while compute_motifs succeeded: " + ip[1])
         return
-    full, nf, std, v1, v2 = ip[1]
+    full, nf, std, v1, v2, v3 = ip[1]
     mp = [tally_to_dict(t) for t in ans[1].split("|")]
     for name, d, mod in (("full", full, mp[0]), ("not_full", nf, mp[1]), ("standard", std, mp[2])):
         if d != mod:
@@ -900,6 +945,57 @@ def check_hg(ctx, drv, sess, case):
         odd = [s for s in v1 + v2 if s not in mv[1]][:3]
         ctx.disagree(case, f"visited node sets differ: model {mv[0]} | {mv[1]}, implementation {v1[:12]} | {v2[:12]}"
                      + (f"; {odd} are not node sets this input can classify (state of an earlier call?)" if odd else ""))
+    check_enumeration(ctx, case, n, E, univ, ans[3], v1, v2, v3)
+
+
+def check_enumeration(ctx, case, n, E, univ, answer, v1, v2, v3):
+    """second extension round: the model's enumeration `countedPats` (node set + pattern handed to the class table, per
+    pass) against the node sets the implementation's passes classify (visited dicts + the ESU pass' look-ups), against
+    the property's words (every connected n-subset exactly once; pattern = induced sub-hypergraph with ranks) and
+    against the model run with reversed incidence / adjacency lists and key order"""
+    try:
+        def dsets(t):
+            return [tuple(univ[i] for i in s) for s in hgxv.dec_lists(t)]
+
+        def dnats(t):
+            return [] if t == "-" else [int(x) for x in t.split(",")]
+        parts = answer.split("|")
+        per = []
+        for t in parts[:3]:
+            a, b = t.split("/")
+            per.append((dsets(a), dnats(b)))
+        m_all, m_ind, m_rev, m_revp = dsets(parts[3]), dnats(parts[4]), dsets(parts[5]), dnats(parts[6])
+        if any(len(a) != len(b) for a, b in per) or len(m_all) != len(m_ind) or len(m_rev) != len(m_revp):
+            raise ValueError("lengths")
+    except Exception as e:  # noqa: BLE001
+        ctx.disagree(case, f"unreadable answer to ucounted: {answer[:200]!r} ({e!r})")
+        return
+    ctx.count("enumerations_compared")
+    s1 = set(v1)
+    impl = [sorted(v1), sorted(s for s in v2 if s not in s1), sorted(v3)]
+    for name, (ms, _), im in zip(("full", "not_full", "standard"), per, impl):
+        if sorted(ms) != im:
+            ctx.disagree(case, f"node sets classified by pass {name}: model {sorted(ms)[:12]}, implementation {im[:12]}")
+            return
+    want = connected_subsets(E, n)
+    got = sorted(impl[0] + impl[1] + impl[2])
+    if got != want:
+        odd = sorted(set(got) ^ set(want))[:4] or [s for s in set(got) if got.count(s) > 1][:4]
+        ctx.violation(case, f"order {n}: the node sets classified by the three passes are not the connected {n}-subsets, "
+                            f"each once: {odd} (classified {len(got)}, connected {len(want)})")
+        return
+    pm = {}
+    for ms, ps in per:
+        pm.update(zip(ms, ps))
+    for S, ind in zip(m_all, m_ind):
+        own = induced_mask(E, n, S)
+        if pm.get(S) != own or ind != own:
+            ctx.disagree(case, f"pattern of {S}: handed over by the model's pass {pm.get(S)}, model inducedMask {ind}, "
+                               f"induced sub-hypergraph with ranks {own}")
+            return
+    if m_rev != m_all or m_revp != [pm.get(S) for S in m_all]:
+        ctx.disagree(case, f"model: reversed incidence lists change the enumeration: {m_rev[:8]} {m_revp[:8]} "
+                           f"against {m_all[:8]}")
 
 
 # ------------------------------------------------------------------------------------------
